@@ -1,7 +1,7 @@
 """C15 -- the generated expression runs identically on every Python 3.8+ runtime."""
 import time, ast, glob, json, os, shutil, subprocess, sys, tempfile
 from common import Check, fresh_oneliner, load_known_findings, REPO
-import gen_prog, par
+import gen_prog, inject, par
 
 HERE = os.path.dirname(os.path.abspath(__file__))
 WANTED = ["3.8", "3.9", "3.10", "3.11", "3.12", "3.13"]
@@ -54,6 +54,9 @@ FSTRING_PROGRAMS = [
     ("walrus-in-displays", "print({(a := 5), 1} == {1, 5}, [(b := 2), b], ((c := 3), c), {(d := 4): d}, a)\n"),
     ("walrus-in-call-and-subscript", "l = [1, 2, 3]\nprint(l[(i := 1)], max((j := 2), 1), i, j, f'{(k := 7)}', k)\n"),
     ("starred-index-load", "t = (1, 2)\nd = {(1, 2, 3): 'x', (0, 1, 2): 'y'}\nprint(d[(*t, 3)], d[(0, *t)])\n"),
+    # comprehensions in class bodies: their own table exists only on hosts <= 3.11 (inlined since 3.12)
+    ("class-comprehension-reads-global", "x = 'm'\nclass K:\n    y = [x + str(i) for i in range(2)]\n    z = {i: x for i in range(1)}\nprint(K.y, K.z)\n"),
+    ("class-comprehension-beside-member", "x = 'm'\nclass K:\n    x = 'k'\n    c = [x for _ in [0]]\n    d = [a for a in x]\nprint(K.c, K.d)\n"),
     ("starred-index-load-in-function", "def f(d, t):\n    return d[(*t, 3)]\nprint(f({(1, 2, 3): 'x'}, (1, 2)))\n"),
 ]
 
@@ -96,6 +99,13 @@ def known_shape(name, src, key, rt, host, text=None):
                     for n in ast.walk(loop):
                         if isinstance(n, ast.Call) and isinstance(n.func, ast.Name) and n.func.id == "super" and not n.args and not n.keywords:
                             return "KF-D65"
+    # KF-D72: on a 3.12+ host a list / set / dict comprehension of a class body has no symbol table of its own
+    if host in ("3.12", "3.13"):
+        try:
+            if inject.class_comp_reads_member(ast.parse(src)):
+                return "KF-D72"
+        except (SyntaxError, ValueError, RecursionError):
+            pass
     # KF-D62: the stdlib unparser of a >= 3.11 host writes a tuple index without parentheses, also when it holds a
     # starred item (`d[*t, 3]`, PEP 646 syntax): a SyntaxError on 3.8 - 3.10
     if rt in ("3.8", "3.9", "3.10") and host in ("3.11", "3.12", "3.13") and key.startswith("ast.unparse|"):
